@@ -387,7 +387,8 @@ def gen_reuse(rng, quick, cpus):
     pinned: same worker environment whatever n_jobs (inner_max_num_threads=1); natural: n_jobs > cpus/2 so that
     cpu_count() // n_jobs == 1 for all of them (the default worker environment is then identical)."""
     seqs = [{"pin": True, "seq": [[4, 6], [2, 6]]}, {"pin": True, "seq": [[2, 4], [4, 6], [2, 6]]},
-            {"pin": True, "seq": [[3, 5], [2, 5], [3, 5]]}]
+            {"pin": True, "seq": [[3, 5], [2, 5], [3, 5]]},
+            {"pin": True, "seq": [[4, 0], [2, 4], [3, 0], [2, 4]]}]   # ntasks 0: configured, nothing submitted (unstarted executor)
     if cpus >= 4:
         a = cpus // 2 + 2
         seqs.append({"pin": False, "seq": [[a, a + 2], [a - 1, a + 2]]})
@@ -398,6 +399,44 @@ def gen_reuse(rng, quick, cpus):
             k = rng.randint(2, 4)
             seqs.append({"pin": rng.random() < 0.8, "seq": [[n, n + 2] for n in (rng.randint(1, 6) for _ in range(k))]})
     return seqs
+
+
+REQ_EXEC = """From Coq Require Import ZArith List Bool.
+Require Import JV.Base.PyPrelude JV.Model.C15Executor.
+Import ListNotations. Open Scope Z_scope."""
+DEFS_EXEC = """Fixpoint exec_trace (l : list (Z * Z * bool)) (s : estate) : list (list Z) :=
+  match l with
+  | [] => []
+  | (n, args, submit) :: t =>
+      let s' := if submit then estep (estep s (OGet n args)) OSubmit else estep s (OGet n args) in
+      match s_exec s' with
+      | Some e => [x_id e; x_max e; x_alive e] :: exec_trace t s'
+      | None => [-1; 0; 0] :: exec_trace t s'
+      end
+  end."""
+
+
+def reuse_model_expr(spec, cpus):
+    """the loky calls of the sequence as executor operations: (resolved n_jobs, code of the executor arguments); the arguments
+    differ only through the worker environment: pinned -> constant, otherwise MAX_NUM_THREADS = max(cpus // n_jobs, 1);
+    a call with n_jobs = 1 runs sequentially and does not touch the executor"""
+    ops = [(n, -1 if spec.get("pin") else max(cpus // n, 1), m > 0) for n, m in spec["seq"] if n != 1]
+    return "exec_trace [%s] init_state" % "; ".join("(%s, %s, %s)" % (z(n), z(a), b(sub)) for n, a, sub in ops)
+
+
+def judge_reuse_model(spec, run, model_trace):
+    """executor identity / _max_workers / live workers after every call, against the machine"""
+    afters = [e for e in run["events"] if e["e"] == "after"]
+    ids, got = {}, []
+    for (n, _), a in zip(spec["seq"], afters):
+        if n == 1:
+            continue
+        if a["exec"] is None:
+            got.append([-1, 0, 0])
+        else:
+            ids.setdefault(a["exec"], len(ids))
+            got.append([ids[a["exec"]], a["max_workers"], a["alive"]])
+    return None if got == model_trace else {"impl": got, "model": model_trace}
 
 
 def judge_reuse(spec, run):
@@ -416,6 +455,9 @@ def judge_reuse(spec, run):
         starts = [e for e in tasks if e["e"] == "S"]
         if len(starts) != m or len(tasks) != 2 * m:
             bad.append("call %s: %d of %d tasks logged start/end exactly once" % (c["path"], len(starts), m))
+            continue
+        if m == 0:
+            prev = n
             continue
         run_now = hw = 0
         for e in tasks:
@@ -456,7 +498,8 @@ def search_failing(ctx):
             return bad, c
     # real nested shapes x n_jobs in {-3,-2,-1,1,2,3,None} x explicit process backends below threads / daemonic workers,
     # judged by the oracle rules that need no model (high-water, pids, "no worker processes below a worker")
-    trees = nested_guard_trees(ctx.rng, True, full=True)
+    trees = [[(None, 3, 5), (None, 2, 3), (None, 2, 3)], [(None, 2, 4)], [("threading", 2, 3), ("threading", 2, 3), (None, 2, 3)],
+             [("threading", 1, 2)], [("loky", 1, 2)], [("multiprocessing", 2, 4)]] + nested_guard_trees(ctx.rng, True, full=True)
     import concurrent.futures as cf
     with cf.ThreadPoolExecutor(6) as ex:
         runs = list(ex.map(lambda it: run_tree(ctx, 7000 + it[0], it[1]), list(enumerate(trees))))
@@ -466,6 +509,14 @@ def search_failing(ctx):
         bad, _, _ = judge_tree(lv, rr, None, 10 ** 9)
         if bad:
             return bad[0], {"mode": "nest", "levels": lv}
+    # loky executor reuse sequences
+    for i, sp in enumerate(gen_reuse(ctx.rng, False, len(os.sched_getaffinity(0)))):
+        rr = run_tree(ctx, 7500 + i, None, 180, sp)
+        if "inconclusive" in rr:
+            continue
+        bad, st = judge_reuse(sp, rr)
+        if bad and not st["timeouts"]:
+            return bad[0], dict(sp, mode="reuse")
     return None
 
 
@@ -484,22 +535,31 @@ def run(ctx):
         "computation, the Python oracle",
     ]
     translator_ok = True
-    try:
-        _, changed, _ = gen_c15.generate()
-        if changed:
-            ctx.note("Gen/T_njobs.v changed: the source of effective_n_jobs / cpu_count differs from the last run")
-    except translate_c17.TranslateError as e:
-        translator_ok = False
-        good = os.path.join(common.COQ, "Gen", ".T_njobs.v.good")
-        if os.path.exists(good):   # proofs are then checked against the last translation that was proved, not a stale one
-            common.write_if_changed(os.path.join(common.COQ, "Gen", "T_njobs.v"), open(good).read())
-        ctx.note("translator rejected the source (%s); falling back to the hand model tie" % e)
+    gens = [(gen_c15.generate, "T_njobs", "effective_n_jobs / cpu_count"),
+            (gen_c15.generate_nested, "T_nested", "get_nested_backend / configure / pool construction"),
+            (gen_c15.generate_executor, "T_executor", "_resize / get_reusable_executor / get_memmapping_executor decisions")]
+    rejected = set()
+    for gen, fname, label in gens:
+        try:
+            changed = gen()[1]
+            if changed:
+                ctx.note("Gen/%s.v changed: the source of %s differs from the last run" % (fname, label))
+        except translate_c17.TranslateError as e:
+            translator_ok = False
+            rejected.add(fname)
+            good = os.path.join(common.COQ, "Gen", ".%s.v.good" % fname)
+            if os.path.exists(good):   # proofs are then checked against the last translation that was proved, not a stale one
+                common.write_if_changed(os.path.join(common.COQ, "Gen", "%s.v" % fname), open(good).read())
+            ctx.note("translator rejected the source (%s); falling back to the hand model tie" % e)
     proofs_ok = ctx.standard_proof_stage("C15", search=lambda: search_failing(ctx))
-    if proofs_ok and translator_ok:
-        common.write_if_changed(os.path.join(common.COQ, "Gen", ".T_njobs.v.good"),
-                                open(os.path.join(common.COQ, "Gen", "T_njobs.v")).read())
-    ctx.coq_build(["Gen/T_njobs.vo", "Model/NJobs.vo"])
-    have_gen = translator_ok and os.path.exists(os.path.join(common.COQ, "Gen", "T_njobs.vo"))
+    if proofs_ok:
+        for gen, fname, label in gens:
+            if fname not in rejected:
+                common.write_if_changed(os.path.join(common.COQ, "Gen", ".%s.v.good" % fname),
+                                        open(os.path.join(common.COQ, "Gen", "%s.v" % fname)).read())
+    ctx.coq_build(["Gen/T_njobs.vo", "Model/NJobs.vo", "Gen/T_nested.vo", "Model/C15Executor.vo"])
+    have_gen = "T_njobs" not in rejected and os.path.exists(os.path.join(common.COQ, "Gen", "T_njobs.vo"))
+    have_nested = "T_nested" not in rejected and have_gen and os.path.exists(os.path.join(common.COQ, "Gen", "T_nested.vo"))
 
     ncores = len(os.sched_getaffinity(0))
     eff = gen_eff(ctx.rng, quick)
@@ -583,6 +643,67 @@ def run(ctx):
             if parse(v) != canon_r(res_cpu[i]):
                 disagreements.append({"function": fn, "case": cpu[i], "impl": res_cpu[i], "model": v})
 
+    # ---- get_nested_backend / configure / pool size: real methods vs the regenerated functions and the hand model
+    nst = [{"mode": "nested", "kind": k, "level": l} for k in KINDS for l in (0, 1, 2, 3, 7)]
+    cnf = [{"mode": "conf", "kind": k, "level": l, "n": n, "cpus": c} for k in ("seq", "thr") for l in (0, 2)
+           for c in (1, 4) for n in (-9, -4, -3, -1, 0, 1, 2, 3, 5)]
+    res_nst = run_impl_cases(nst, nproc=2)
+    res_cnf = run_impl_cases(cnf, nproc=4)
+    for c, r in zip(nst, res_nst):
+        exp = [2, 0, None] if c["kind"] == "seq" else ([1, 1, None] if c["level"] == 0 else [0, c["level"] + 1, None])
+        if r.get("ok") != exp:
+            problems.append(("%s(nesting_level=%d).get_nested_backend() = %s, the property allows %s (threads at the first "
+                             "level, sequential below, n_jobs None)" % (c["kind"], c["level"], r, exp), c, r))
+    for c, r in zip(cnf, res_cnf):
+        n, cpus = c["n"], c["cpus"]
+        want = 1 if c["kind"] == "seq" else (n if n > 0 else max(cpus + 1 + n, 1))
+        if n == 0:
+            ok = r.get("raise") == "ValueError"
+        elif want == 1 and c["kind"] == "thr":
+            ok = r.get("fallback") == [0, c["level"]]
+        else:
+            ok = r.get("ok") == want and ("pool" not in r or r["pool"] == want)
+        if not ok:
+            problems.append(("%s.configure(n_jobs=%d) with %d cpus gave %s: expected %s" % (
+                c["kind"], n, cpus, r, "ValueError" if n == 0 else ("fallback to the sequential backend at the same level"
+                if want == 1 and c["kind"] == "thr" else "%d workers and a pool of that size" % want)), c, r))
+    defs_n = DEFS_COMMON + """
+Definition shown (r : result (bk * option Z)) : list Z :=
+  match r with Ok (b, None) => [kz (bkind b); blevel b; -1] | Ok (b, Some n) => [kz (bkind b); blevel b; n] | Raise _ => [-9] end.
+Definition showc (r : result Z) (pool : Z) : list Z :=
+  match r with Ok v => [0; v; pool] | Raise ValueError => [1; 0; 0] | Raise (OtherError 1) => [3; 0; 0] | Raise _ => [2; 0; 0] end."""
+    exprs = []
+    for c in nst:
+        if c["kind"] == "seq":
+            exprs.append("shown (%s (default_backend, None))" % ("seq_get_nested_backend" if have_nested else "Ok"))
+        else:
+            exprs.append("shown (%s)" % ("base_get_nested_backend %s" % z(c["level"]) if have_nested else
+                                         "Ok (nested_backend {| bkind := %s; blevel := %s |}, None)" % (KCOQ[c["kind"]], z(c["level"]))))
+    for c in cnf:
+        envs = "false %s false 0 true %s %s" % (z(c["cpus"]), z(c["level"]), z(c["n"]))
+        if have_nested:
+            fn = "base_configure" if c["kind"] == "seq" else "thr_configure"
+            exprs.append("(let r := %s %s in showc r (match r with Ok v => %s | _ => 0 end))" % (
+                fn, envs, "v" if c["kind"] == "seq" else "thr_pool_size v"))
+        else:
+            exprs.append("(let r := match configure {| bkind := %s; blevel := %s |} (s_env (top_site %s)) %s with "
+                         "Ok (b, v) => if kind_eqb (bkind b) %s then Ok v else Raise (OtherError 1) | Raise x => Raise x end in "
+                         "showc r (match r with Ok v => v | _ => 0 end))" % (KCOQ[c["kind"]], z(c["level"]), z(c["cpus"]), z(c["n"]), KCOQ[c["kind"]]))
+    vals = ctx.coq_eval_lines((REQ.replace("JV.Gen.T_njobs.", "JV.Gen.T_njobs JV.Gen.T_nested.") if have_nested else REQ_MODEL_ONLY),
+                              defs_n, exprs, name="c15_nested_fn")
+    n_model += len(vals)
+    for c, r, v in zip(nst + cnf, res_nst + res_cnf, vals):
+        if c["mode"] == "nested":
+            iv = None if "ok" not in r else [r["ok"][0], r["ok"][1], -1 if r["ok"][2] is None else r["ok"][2]]
+        elif "ok" in r:
+            iv = [0, r["ok"], r.get("pool", r["ok"])]
+        elif "fallback" in r:
+            iv = [3, 0, 0] if r["fallback"] == [0, c["level"]] else [-3, 0, 0]
+        else:
+            iv = [1, 0, 0] if r.get("raise") == "ValueError" else [2, 0, 0]
+        if parse(v) != iv:
+            disagreements.append({"function": "get_nested_backend/configure", "case": c, "impl": r, "model": v})
+
     # ---- real nested runs
     trees = gen_trees(ctx.rng, quick)
     reuse = gen_reuse(ctx.rng, quick, real_cpus)
@@ -648,6 +769,15 @@ def run(ctx):
             if st["timeouts"]:
                 reuse_stats["inconclusive"] += 1
                 ctx.note("reuse sequence %s: barrier timeout twice, reported as inconclusive" % sp)
+        if not st["timeouts"]:
+            mt = parse(ctx.coq_eval_lines(REQ_EXEC, DEFS_EXEC, [reuse_model_expr(sp, real_cpus)], name="c15_exec_%d" % i)[0])
+            n_model += 1
+            d = judge_reuse_model(sp, rr, mt)
+            if d and not bad:
+                r3 = run_tree(ctx, 6500 + i, None, 180, sp)   # confirm once: live-worker counts are sampled after the call
+                d = None if "inconclusive" in r3 else judge_reuse_model(sp, r3, mt)
+            if d:
+                disagreements.append({"function": "reusable executor machine (get_executor/resize)", "case": dict(sp, mode="reuse"), **d})
         reuse_stats["calls"] += st["calls"]
         reuse_stats["executor_reused"] += st["reused"]
         reuse_stats["barrier_timeouts"] += st["timeouts"]
@@ -696,7 +826,7 @@ def run(ctx):
         ctx.note("translator tie lost, hand-model tie intact")
 
     ctx.finish({
-        "evaluations": len(eff) + len(api) + len(cpu) + nest_stats["calls"] + reuse_stats["calls"],
+        "evaluations": len(eff) + len(api) + len(cpu) + len(nst) + len(cnf) + nest_stats["calls"] + reuse_stats["calls"],
         "distinct_nontrivial": len(nontrivial),
         "rule": "effective_n_jobs of the 4 backend classes for cpu_count in %s, every n in [-2*cpus, 2*cpus], plus all combinations "
                 "of daemon/_CURRENT_DEPTH/non-main thread/nesting level/mp-disabled on a value grid; joblib.effective_n_jobs under "
